@@ -359,6 +359,40 @@ CLAIMED.update({
         note="legacy preconditions: no NULL in primitive columns, no empty string; lance-encoding block statistics prune nothing; float order "
              "calibrated each run; quick tier samples predicates and size-3 float/utf8 pages",
         technique="TLA+ interval-abstraction laws + TLC; page-universe replay on legacy tables and zone-map indices; TLC trace validation"),
+    "C36": dict(category="model_checking",
+        text="Namespace catalog behaves as a hierarchical map: TLC model-checks the manifest-row design (object_id = names joined by '$', the "
+             "code's filters transcribed) against the map meaning (CatalogIsMap, OperationsAreLocal, UnfaithfulNamesRejected, PagingCoversOnce) "
+             "for all histories up to depth 3 (quick) / 4 (thorough) over names with $, ', /, ., non-ASCII; TLC-generated histories (exhaustive "
+             "final states + seeded simulation + witness counterexamples of each as-built deviation) are replayed on the real DirectoryNamespace "
+             "in dir, manifest and dual mode and every response and probe is judged by Trace_Namespace.",
+        design_ref="DESIGN.md 3.8 (Namespace), 5 (C36), 8 #13",
+        note="local file system store; one mode per scenario; REST namespace, migration between modes and concurrent callers not covered; "
+             "findings keyed by {invariant, deviation}",
+        technique="explicit TLA+ spec (spec/Namespace.tla) + TLC + history replay (harness/src/bin/vh_namespace.rs) + trace validation "
+                  "(spec/Trace_Namespace.tla)"),
+    "C22": dict(category="model_checking",
+        text="TLC checks the laws of the nearest-neighbour answer relation (VectorQueryOps!Judge: visibility, exact integer distances, ascending "
+             "order, |R|=min(k,eligible), no closer eligible row outside; post-filter = filtered exact top-k) on every reachable small table "
+             "(append/delete/IVF_FLAT index/optimize/compact) and query, then generates histories, the query universe (25 grid points x k 1..9 x "
+             "10 filters x 3 metrics) and 34 execution variants (flat, IVF_FLAT full probe with/without refine, fast_search, pre-/post-filter, "
+             "partial probing); the driver replays them on real datasets (stable and address row ids, multi-fragment, optional btree prefilter) "
+             "and TLC judges every recorded answer (Trace_VectorQuery.tla). Partial claim.",
+        design_ref="DESIGN.md 3.9, 5 (C22)",
+        note="vectors on the integer grid {-2..2}^2 as float32 (L2, dot exact; cosine only non-zero vectors, tolerance 1e-6), <= 8 rows; NOT "
+             "decided: float16/float64, SIMD tails, high dimensions, PQ/SQ/HNSW recall, multivectors; partial-probe modes judged for deleted / "
+             "filtered-out rows only; trusted: TLC, the scan projection used as ground truth for liveness and index coverage",
+        technique="TLA+ answer relation + TLC law checking; TLC-generated histories/queries replayed on lance; TLC trace validation"),
+    "C23": dict(category="model_checking",
+        text="TLC checks laws of the token-level matching semantics (TextQueryOps: OR/AND/phrase/boolean, NULL and empty documents, hierarchy "
+             "phrase <= AND <= OR, boolean laws, independence from index coverage) on every reachable small table and query, then generates "
+             "histories (append after indexing, delete, optimize, compact), the query universe (1,524 match / phrase / boolean queries of <= 3 "
+             "terms) and document pools; the driver replays them on real datasets with a whitespace + lower-case inverted index (with "
+             "positions) and TLC judges every recorded answer: returned key set = matching live rows (unindexed included, deleted excluded), no "
+             "duplicates, non-increasing reported score, limit = subset of size min(L, matches) (Trace_TextQuery.tla). Partial claim.",
+        design_ref="DESIGN.md 3.9, 5 (C23)",
+        note="<= 8 documents of <= 4 tokens over ant/bee/cat/nandu(non-ASCII) + empty + NULL, rendered with mixed case / whitespace; NOT "
+             "decided: BM25 score values (only their order), fuzziness, boost, slop, multi-match, other tokenizers; trusted: TLC, scan projection",
+        technique="TLA+ answer relation + TLC law checking; TLC-generated histories/queries replayed on lance; TLC trace validation"),
 })
 
 PENDING_REASON = "not yet bound to the implementation by a registered check in this snapshot (see DESIGN.md status table)"
